@@ -106,7 +106,7 @@ C09Mechanism(e) ==
 Mechanism(e) == CASE e.mode = "c07" -> C07Mechanism(e) [] e.mode = "c08" -> C08Mechanism(e) [] OTHER -> C09Mechanism(e)
 Failed(e) == LET cs == Clauses(e) IN SelectSeq(cs, LAMBDA c : ~c[2])
 \* a named deviation explains only the clauses it can be about
-DeviationClauses == {"copy-or-reordering-is-deep-equal", "symmetric", "deep-equal-inputs-all-two-sided", "nothing-lost"}
+DeviationClauses == {"copy-or-reordering-is-deep-equal", "symmetric", "deep-equal-inputs-all-two-sided", "nothing-lost", "nothing-invented"}
 MechanismFor(e, clause) == IF clause \in DeviationClauses THEN Mechanism(e) ELSE "unexplained"
 FirstFailed(e) == LET f == Failed(e) IN IF f = <<>> THEN "" ELSE f[1][1]
 
